@@ -33,7 +33,7 @@ def phase_paths(run, pool):
     programs), all invariants on, and the result of every call compared across ALL these histories."""
     t = time.time()
     progs = (P.path_programs_c17() + P.large_programs_c17() + P.matrix_programs_c17() + P.key_programs_c17()
-             + P.steps_programs_c17() + P.interaction_programs_c17(run.tier))
+             + P.steps_programs_c17() + P.interaction_programs_c17(run.tier) + P.abort_programs_c17())
     n0 = run.evals
     table, conflicts = {}, []
 
@@ -68,6 +68,7 @@ def phase_paths(run, pool):
                                             "key_interaction_programs": len(P.key_programs_c17()),
                                             "product_count_programs": len(P.steps_programs_c17()),
                                             "large_draw_programs": len(P.large_programs_c17()),
+                                            "abort_then_reuse_programs": len(P.abort_programs_c17()),
                                             "operand_interaction_programs": len(P.interaction_programs_c17(run.tier)),
                                             "calls_compared_across_histories": len(table),
                                             "cross_history_conflicts": len(conflicts),
